@@ -177,6 +177,7 @@ def run(chk):
     call_pairing_rule(chk, by_norm)
     line_table_rules(chk, by_norm)
     operand_and_closure_rules(chk, by_norm, d['types'])
+    jump_parity_rule(chk, by_norm)
     # ---- R3 who-may-write
     n3 = 0
     for f in d['fns']:
@@ -275,6 +276,97 @@ def space_of(e, fn, spec, env, loop_binds, depth=0):
             return a | b
         return a or b
     return None
+
+
+def jump_parity_rule(chk, by_norm):
+    chk.rule('C14-R11', 'for the targets with byte-addressed jumps (3.7, 3.8, 3.9) every value handed to fill_jump / calc_edit_jump — an absolute offset or a distance between '
+                        'instruction boundaries — is even: lasti() is even at every recording point (C14-R1), so the parity of `idx_a - idx_b - c` is the parity of `c`; an odd '
+                        'operand puts the target between two instructions')
+
+    def arm_matches(arm, v):
+        p = arm['pat']
+        if p.get('k') in ('Wild', 'Bind'):
+            return True
+        alts = p['p'] if p.get('k') == 'POr' else [p]
+        for a in alts:
+            if a.get('k') in ('PTupleStruct', 'PStruct') and a['d'].endswith('::Some'):
+                inner = (a.get('p') or [f_['p'] for f_ in a.get('f', [])])[0]
+                for q in (inner['p'] if inner.get('k') == 'POr' else [inner]):
+                    if q.get('k') == 'PLit' and (q.get('v') or {}).get('int') == v:
+                        return True
+                    if q.get('k') == 'PRange':
+                        lo, hi = (q.get('lo') or {}).get('int'), (q.get('hi') or {}).get('int')
+                        if lo is not None and hi is not None and lo <= v <= hi:
+                            return True
+        return False
+
+    def parity(e, env, spec, depth=0):
+        if depth > 10:
+            return None
+        e = T.peel(e)
+        k = e.get('k')
+        v = T.lit_int(e)
+        if v is not None:
+            return v % 2
+        if k == 'Cast':
+            return parity(e['x'], env, spec, depth + 1)
+        if k == 'Block' and 'e' in e and not e.get('s'):
+            return parity(e['e'], env, spec, depth + 1)
+        if k == 'MCall' and e['n'] == 'lasti':
+            return 0
+        if k == 'Local':
+            return parity(env[e['n']], env, spec, depth + 1) if e['n'] in env else None
+        if k == 'Binary' and e['op'] in ('+', '-'):
+            a, b = parity(e['x'], env, spec, depth + 1), parity(e['y'], env, spec, depth + 1)
+            return None if a is None or b is None else (a + b) % 2
+        if k == 'Binary' and e['op'] == '*':
+            a, b = parity(e['x'], env, spec, depth + 1), parity(e['y'], env, spec, depth + 1)
+            if a == 0 or b == 0:
+                return 0
+            return 1 if a == 1 and b == 1 else None
+        if k == 'Match' and 'py_version' in T.show(e['x']):
+            for arm in e['arms']:
+                if arm_matches(arm, spec.v):
+                    return parity(arm['b'], env, spec, depth + 1)
+            return None
+        if k == 'If' and e.get('e') is not None:
+            c = spec.cond(e['c'])
+            if c is True:
+                return parity(e['t'], env, spec, depth + 1)
+            if c is False:
+                return parity(e['e'], env, spec, depth + 1)
+        return None
+    nsite = 0
+    for v in (7, 8, 9):
+        spec = VS.Spec(v)
+        for nm, f in sorted(by_norm.items()):
+            if not nm.startswith('PyCodeGenerator::'):
+                continue
+            env = VS.let_env(f)
+            for n, ctx in T.walk_ctx(f['body']):
+                if n.get('k') != 'MCall' or n['n'] not in ('fill_jump', 'calc_edit_jump') or len(n['a']) < 2:
+                    continue
+                live = True
+                for c in ctx:
+                    if c[0] == 'if':
+                        cv = spec.cond(c[1])
+                        if cv is not None and cv != c[2]:
+                            live = False
+                    if c[0] == 'arm' and 'py_version' in T.show(c[1]['x']) and not arm_matches(c[2], v):
+                        live = False
+                if not live:
+                    continue
+                nsite += 1
+                pr = parity(n['a'][1], env, spec)
+                inst = '%s@3.%d' % (T.show(n['a'][1])[:40].replace(' ', ''), v)
+                if pr == 1:
+                    chk.bad('C14-R11', nm, 'odd:' + inst, '%s passes `%s` to %s under target 3.%d: an odd number of bytes, so the jump lands inside an instruction (dis shows a target that is '
+                            'no instruction offset)' % (nm, T.show(n['a'][1])[:50], n['n'], v), CODEGEN, n['l'])
+                elif pr == 0:
+                    chk.ok('C14-R11', (nm, n['l'], v))
+                else:
+                    chk.notes.append({'parity not evaluated': '%s: %s' % (nm, inst)}) if len(chk.notes) < 40 else None
+    chk.floor('jump operands examined (site x version 3.7-3.9)', nsite, 20)
 
 
 def operand_and_closure_rules(chk, by_norm, types):
